@@ -25,6 +25,42 @@ func runC08(p *eng.Prog, r *eng.Report, tier string) {
 	c08Reader(c)
 	closerTypestate(c, "C08.5")
 	c05DeferWriterID(c, "C08.5")
+	// C08.7 stream-level constructs END the session: the filter's errors are
+	// final. A handler that ignores a read error (decodes "as far as it goes"
+	// and returns nil) must not be able to keep the session alive after a
+	// comment, a processing instruction or a received stream error inside an
+	// element: the reader latches its first error.
+	if rt := c.fn("C08.7", "internal/stream", "(*reader).Token"); rt != nil {
+		latched := false
+		for _, f := range c.allFns() {
+			if !strings.HasPrefix(f.Short, "internal/stream.(*reader).") {
+				continue
+			}
+			for _, w := range f.Writes() {
+				if k, ok := f.FieldClass(w.LHS); ok && strings.HasPrefix(k, "internal/stream.reader.") {
+					if t := f.Info().TypeOf(w.LHS); t != nil && eng.TypeStr(t) == "error" {
+						latched = true
+					}
+				}
+			}
+		}
+		c.r.Check("C08.7", rt, "errors of the stream-level filter are final", "K: the filter remembers its first error and returns it again (the offending token has been consumed from the decoder: a later read would continue behind it)", rt.Pos(), latched, "a comment, processing instruction or stream error inside an element ends the session only if the handler propagates the read error; otherwise the final discard reads on behind it and Serve dispatches the next element")
+	}
+	// C08.6 the input is parsed strictly: nobody relaxes the decoder (a
+	// non-strict decoder invents end tags and lets a </stream:stream> in the
+	// middle of an element end the session as if it were well-formed)
+	nw := 0
+	for _, f := range c.allFns() {
+		for _, w := range f.Writes() {
+			if sel, ok := ast.Unparen(w.LHS).(*ast.SelectorExpr); ok {
+				if k, _ := f.FieldClass(sel); k == "encoding/xml.Decoder.Strict" || k == "encoding/xml.Decoder.AutoClose" || k == "encoding/xml.Decoder.Entity" {
+					nw++
+					c.r.Check("C08.6", f, "write to "+k, "W: library code never relaxes an xml.Decoder (Strict / AutoClose / Entity stay at their defaults)", w.Stmt.Pos(), false, "decoder relaxed in "+f.Short)
+				}
+			}
+		}
+	}
+	c.r.CheckNamed("C08.6", "-", "decoder strictness", "W: no write to xml.Decoder.Strict/AutoClose/Entity in the library", 0, nw == 0, "")
 }
 
 func c05DeferWriterID(c *cx, id string) {
@@ -170,6 +206,9 @@ func c08Handle(c *cx) {
 			okEmpty = true
 		}
 		c.r.Check("C08.4", f, "from normalisation value", "K: the attribute value is only ever blanked", w.Stmt.Pos(), okEmpty, "stores "+c.p.NodeStr(w.Stmt))
+		// only the stanza's own (unqualified) from attribute is looked at: a
+		// namespaced x:from must neither be blanked nor end the search
+		c.domAny("C08.4", f, w.Stmt, "from normalisation [unqualified attribute]", []string{"eq(rangeval(*start*.Attr).Name.Space,\"\")"})
 		c.dom("C08.4", f, w.Stmt, "from normalisation", []string{
 			"stanza.Is(*start*.Name,p0.in.XMLNS)",
 			"eq(rangeval(*start*.Attr).Name.Local,\"from\")",
